@@ -53,6 +53,16 @@ struct CallRec
     std::uint8_t poison = 0;
 };
 
+// cheap per iteration statistics, kept even when detailed call logging is switched off
+struct IterStat
+{
+    std::uint64_t calls = 0;      // integrand entries
+    std::uint64_t nz = 0;         // non-zero values returned
+    std::uint64_t fin = 0;        // of those, finite after weighting (only counted when the weight is known)
+    std::uint64_t first_pos = 0;  // raw outputs consumed when the first point of the iteration was handed over
+    bool weights_known = true;
+};
+
 struct CbRec
 {
     std::uint64_t nresults = 0;   // chkpt.results().size() seen by the callback
@@ -91,12 +101,13 @@ struct Ctx
     // ---- user code side
     std::uint32_t cur_iter = 0;
     std::uint64_t cur_call = 0;
-    std::uint32_t dims = 0, chan = 0;
+    std::uint32_t dims = 0, chan = 0, mapd = 0;
     std::vector<CallRec> calls;
     std::vector<long double> arena;
     std::vector<std::uint32_t> bins;
     std::vector<AddRec> adds;
     std::vector<CbRec> cbs;
+    std::map<std::uint32_t, IterStat> stats;
     std::vector<CollRec> colls;
     std::vector<std::string> proto;    // protocol violations found inline (C17)
     std::vector<std::vector<std::uint64_t>> enabled_by_iter;   // enabled_channels as seen by the map
@@ -129,6 +140,7 @@ struct Ctx
         bins.clear();
         adds.clear();
         cbs.clear();
+        stats.clear();
         colls.clear();
         proto.clear();
         enabled_by_iter.clear();
